@@ -55,11 +55,21 @@ namespace Win
 variable {α : Type}
 
 namespace Whn
+theorem createClosingF_pushedOf (r : Option Nat) (pool : Nat) (fuel : Nat) (s : Whn α) (j) :
+    (createClosingF r pool fuel s).b.pushedOf j = s.b.pushedOf j := by
+  induction fuel generalizing s with
+  | zero => rfl
+  | succ fuel ih =>
+    simp only [createClosingF]
+    split
+    · simp [onEnd]
+    · split
+      · rw [ih]; split <;> simp [Base.pushedOf_newWin]
+      · split <;> simp [onEnd]
+      · split <;> split <;> (try split) <;> simp
+
 theorem createClosing_pushedOf (r : Option Nat) (pool : Nat) (s : Whn α) (j) :
-    (createClosing r pool s).b.pushedOf j = s.b.pushedOf j := by
-  unfold createClosing; simp only []; split
-  · simp [onEnd]
-  · split <;> split <;> (try split) <;> simp
+    (createClosing r pool s).b.pushedOf j = s.b.pushedOf j := createClosingF_pushedOf r pool _ s j
 
 theorem delta_step (r : Option Nat) (pool : Nat) (s : Whn α) (t : Nat) (e : Ev α) (id : Nat) :
     ((Whn.mach r pool).step s t e).b.pushedOf id =
@@ -290,8 +300,11 @@ theorem onOpen_pushedOf (r : Option Nat) (pool : Nat) (s : Tgl α) (j) : (onOpen
   split
   · rw [errAll_pushedOf]; simp [Base.pushedOf_newWin]
   · split
-    · split <;> simp [Base.pushedOf_newWin]
-    · simp [Base.pushedOf_newWin]
+    · rw [expire_pushedOf]; simp [Base.pushedOf_newWin]
+    · rw [errAll_pushedOf]; simp [Base.pushedOf_newWin]
+    · split
+      · split <;> simp [Base.pushedOf_newWin]
+      · simp [Base.pushedOf_newWin]
 
 theorem good_onOpen (r : Option Nat) (pool : Nat) (s : Tgl α) (hg : Good s) : Good (onOpen r pool s) := by
   have hnew : Good ({ s with b := s.b.newWin.1.outerNext s.b.newWin.2, leftId := s.leftId + 1,
@@ -310,10 +323,13 @@ theorem good_onOpen (r : Option Nat) (pool : Nat) (s : Tgl α) (hg : Good s) : G
   split
   · exact good_errAll _ _ hnew
   · split
+    · exact good_expire _ _ hnew
+    · exact good_errAll _ _ hnew
     · split
-      · exact ⟨hnew.1, fun i hi => by simpa using hnew.2 i hi⟩
-      · exact ⟨hnew.1, fun i hi => by simpa using hnew.2 i hi⟩
-    · exact hnew
+      · split
+        · exact ⟨hnew.1, fun i hi => by simpa using hnew.2 i hi⟩
+        · exact ⟨hnew.1, fun i hi => by simpa using hnew.2 i hi⟩
+      · exact hnew
 
 theorem good_step (r : Option Nat) (pool : Nat) (s : Tgl α) (t : Nat) (e : Ev α) (hg : Good s) :
     Good ((Tgl.mach r pool).step s t e) := by
